@@ -47,7 +47,7 @@ ASSUMPTIONS = [
     'enforced on every message',
     'a quoted k="v" value that contains the other quote kind is observed (must not raise) but not asserted',
 ]
-INTERPRETER_FLAGS = [[], ['-O'], [], ['-bb']]
+INTERPRETER_FLAGS = [[], ['-O'], ['-X', 'dev'], ['-bb']]
 CONCURRENT = lambda case: case.get('kind') != 'twins' and (case.get('kind') != 'starved')          # pure function of its arguments; see vlib/concurrent.py
 SHARDS = {'quick': 4, 'thorough': 16}
 MIN_DISTINCT = {'quick': 20000, 'thorough': 1000000}
@@ -716,6 +716,11 @@ def sweep_cases(rng):
 
 
 # ----------------------------------------------------------------------
+
+def REJECTED_FUNCS(ctx):
+    from oslo_utils import strutils
+    return [strutils.mask_password]
+
 
 def HAMMER(ctx):
     from oslo_utils import strutils
